@@ -801,32 +801,33 @@ Proof.
             witness cs p (b_k b) m \/
             exists i, nth_error pre i = Some m /\ nth_error refs i = Some (p, b_k b)) ms)
     with (pws := pws) (wg := wg) (wg' := wg') (refs' := refs'); auto.
-  intros pre m0 pws1 refs [L R1] post E pws0 j pw pw' k sp H0 N O T PA.
-  split; [rewrite !app_length; simpl; lia|].
-  assert (R0 : forall p pw b m, nth_error pws0 p = Some pw -> In b (pw_all pw) -> In m (b_msgs b) ->
-            witness cs p (b_k b) m \/
-            exists i, nth_error (pre ++ [m0]) i = Some m /\ nth_error (refs ++ [(j, k)]) i = Some (p, b_k b)).
-  { intros p1 pw1 b1 m1 N1 Hb Hm.
-    assert (N1' : nth_error pws1 p1 = Some pw1).
-    { destruct H0 as [->| ->]; auto.
-      destruct (Nat.lt_ge_cases p1 (length pws1)) as [Lt|Ge].
-      - rewrite nth_error_app1 in N1 by exact Lt. exact N1.
-      - rewrite nth_error_app2 in N1 by exact Ge.
-        destruct (p1 - length pws1) as [|d]; simpl in N1; [|destruct d; discriminate].
-        inversion N1; subst pw1. destruct Hb. }
-    destruct (R1 _ _ _ _ N1' Hb Hm) as [W|(i & I1 & I2)]; auto.
-    right. exists i.
-    rewrite !nth_error_app1; auto; apply nth_error_Some; congruence. }
-  intros p1 pw1 b1 m1 N1 Hb Hm.
-  apply nth_error_upd in N1. destruct N1 as [(<- & -> & _)|[_ N1]]; [|eauto].
-  destruct (pw_add_spec _ _ _ _ _ PA) as (_ & _ & _ & SP).
-  destruct (SP _ Hb) as [I|(b & -> & K & C)]; [eauto|].
-  simpl in Hm. apply in_app_or in Hm. destruct Hm as [Hm|[<-|[]]].
-  - destruct C as [C|C]; [|rewrite C in Hm; destruct Hm].
-    apply (R0 j pw b m1 N); auto. unfold pw_all. rewrite C. rewrite !in_app_iff. simpl. auto.
-  - right. exists (length pre). simpl. rewrite K.
-    rewrite nth_error_app2, Nat.sub_diag by lia. rewrite <- L.
-    rewrite nth_error_app2, Nat.sub_diag by lia. auto.
+  - intros pre m0 pws1 refs [L R1] post E pws0 j pw pw' k sp H0 N O T PA.
+    split; [rewrite !app_length; simpl; lia|].
+    assert (R0 : forall p pw b m, nth_error pws0 p = Some pw -> In b (pw_all pw) -> In m (b_msgs b) ->
+              witness cs p (b_k b) m \/
+              exists i, nth_error (pre ++ [m0]) i = Some m /\ nth_error (refs ++ [(j, k)]) i = Some (p, b_k b)).
+    { intros p1 pw1 b1 m1 N1 Hb Hm.
+      assert (N1' : nth_error pws1 p1 = Some pw1).
+      { destruct H0 as [->| ->]; auto.
+        destruct (Nat.lt_ge_cases p1 (length pws1)) as [Lt|Ge].
+        - rewrite nth_error_app1 in N1 by exact Lt. exact N1.
+        - rewrite nth_error_app2 in N1 by exact Ge.
+          destruct (p1 - length pws1) as [|d]; simpl in N1; [|destruct d; discriminate].
+          inversion N1; subst pw1. destruct Hb. }
+      destruct (R1 _ _ _ _ N1' Hb Hm) as [W|(i & I1 & I2)]; auto.
+      right. exists i.
+      rewrite !nth_error_app1; auto; apply nth_error_Some; congruence. }
+    intros p1 pw1 b1 m1 N1 Hb Hm.
+    apply nth_error_upd in N1. destruct N1 as [(<- & -> & _)|[_ N1]]; [|eauto].
+    destruct (pw_add_spec _ _ _ _ _ PA) as (_ & _ & _ & SP).
+    destruct (SP _ Hb) as [I|(b & -> & K & C)]; [eauto|].
+    simpl in Hm. apply in_app_or in Hm. destruct Hm as [Hm|[<-|[]]].
+    + destruct C as [C|C]; [|rewrite C in Hm; destruct Hm].
+      apply (R0 j pw b m1 N); auto. unfold pw_all. rewrite C. rewrite !in_app_iff. simpl. auto.
+    + right. exists (length pre). simpl. rewrite K.
+      rewrite nth_error_app2, Nat.sub_diag by lia. rewrite <- L.
+      rewrite nth_error_app2, Nat.sub_diag by lia. auto.
+  - split; auto. intros; left; eapply P; eauto.
 Qed.
 
 Definition CI (s : state) : Prop := NoDup (used_ids (s_calls s)) /\ prov (s_calls s) (s_pws s).
@@ -914,3 +915,46 @@ Lemma C01_dups_count_proof : forall cfg ls s, runs cfg ls s ->
 Proof.
   intros cfg ls s Hr. destruct (base_inv _ _ _ Hr) as (_ & _ & (_ & _ & C) & _). exact C.
 Qed.
+
+Lemma full_inv : forall cfg ls s, runs cfg ls s ->
+  seqinvs (s_pws s) /\ JJ cfg s /\ CI s /\ DD cfg s.
+Proof.
+  intros cfg. apply runs_inv.
+  - split; [intros x []|]. split; [|split].
+    + split; [intros x []|]. split; [intros p pw b n ph N; destruct p; discriminate|].
+      intros p k. simpl. unfold count. simpl. lia.
+    + split; [constructor|]. intros p pw b m N. destruct p; discriminate.
+    + intros j1 a j2 b j3 E. simpl in E. destruct j1; discriminate.
+  - intros s l s' (SI & J & C & D) St.
+    split; [eapply seqinvs_step; eauto|]. split; [eapply JJ_step; eauto|].
+    split; [eapply CI_step; eauto|eapply DD_step; eauto].
+Qed.
+
+Lemma C01_dups_retry_proof : forall cfg ls s, runs cfg ls s ->
+  forall j1 a j2 b j3, s_journal s = j1 ++ a :: j2 ++ b :: j3 ->
+    (exists m, In m (a_msgs a) /\ In m (a_msgs b)) ->
+    a_msgs a = a_msgs b /\ a_tp a = a_tp b /\
+    exists e, a_seen a = Some e /\ retriable cfg e = true.
+Proof. intros cfg ls s Hr. exact (proj2 (proj2 (proj2 (full_inv _ _ _ Hr)))). Qed.
+
+Lemma C01_duplicates_only_by_retry_proof : stmt_C01_duplicates_only_by_retry.
+Proof.
+  intros cfg ls s Hr. split; [eapply C01_dups_log_proof; eauto|].
+  split; [eapply C01_dups_retry_proof; eauto|eapply C01_dups_count_proof; eauto].
+Qed.
+
+Lemma C08_rejected_never_sent_proof : stmt_C08_rejected_never_sent.
+Proof.
+  intros cfg ls s Hr c cl Nc Rj m a Hm Ha Hma.
+  destruct (full_inv _ _ _ Hr) as (_ & (A & _ & _) & (N & P) & _).
+  destruct (A a Ha) as (pw & b & Np & Hb & _ & M & _).
+  rewrite <- M in Hma.
+  destruct (P _ _ _ _ Np (pw_done_all _ _ Hb) Hma) as (c' & cl' & i' & C1 & _ & C3 & C4 & _).
+  apply In_nth_error in Hm. destruct Hm as [i Hi].
+  destruct (used_ids_unique _ _ _ _ _ _ _ _ N Nc Hi C1 C4) as [<- _].
+  congruence.
+Qed.
+
+Print Assumptions C01_no_foreign_log_proof.
+Print Assumptions C01_duplicates_only_by_retry_proof.
+Print Assumptions C08_rejected_never_sent_proof.
